@@ -288,6 +288,25 @@ def run(ctx):
             except Exception as e:  # noqa
                 ctx.violation({"source": src, "error": repr(e)[:200]}, "the Babel extractor raised", tags=["c20.raise"])
                 continue
+            # the source encoding declared by a magic comment only, or by a comment that the configured encoding contradicts
+            # (the comment wins): the same messages, one line further down
+            if i % 4 == 0:
+                for comment_enc, opt in [("cp1251", None), ("cp1251", "utf-8"), ("utf-8", "cp1251"), ("utf-8", None)]:
+                    src2 = "## -*- coding: %s -*-%s" % (comment_enc, nl) + src
+                    try:
+                        b2 = src2.encode(comment_enc)
+                    except UnicodeEncodeError:
+                        continue
+                    ctx.evaluations += 1
+                    try:
+                        got2 = run_babel(b2, opt)
+                    except Exception as e:  # noqa
+                        got2 = "raised %s: %s" % (type(e).__name__, str(e)[:100])
+                    shifted = [(g[0] + 1,) + tuple(g[1:]) for g in got]
+                    if got2 != shifted:
+                        ctx.violation({"source": src2, "bytes_encoded_as": comment_enc, "configured_encoding": opt, "reported": repr(got2)[:400], "expected": repr(shifted)[:400]},
+                                      "with the source encoding declared by a magic comment the Babel extractor reports different messages", tags=["c20.encoding.magic-comment"])
+                        break
             want = [(l, f, norm_messages(m), c) for l, f, m, c, known in b.expected if not known]
             want_known = [(l, f, norm_messages(m), c, known) for l, f, m, c, known in b.expected if known]
             kinds["constructs"] = kinds.get("constructs", 0) + len(b.expected)
